@@ -209,6 +209,13 @@ pub enum Verdict {
     Lenient { why: &'static str },
     /// well-formed UDP datagram
     Udp { src: (u32, u16), dst: (u32, u16), payload: Vec<u8> },
+    /// a UDP datagram that is consistent in itself (UDP length = the UDP octets that count, see
+    /// `reference_ip`) inside a frame whose octet count differs from the IPv4 total length: link
+    /// padding behind the datagram (RFC 791: the datagram ends at the total length; a receiver that
+    /// is not told the frame length may fail to trim it) or an IPv4 datagram cut short of its total
+    /// length behind a complete, self-consistent UDP datagram.  A receiver may drop it; IF it
+    /// delivers, then exactly this payload, exactly once, to the datagram's own listener.
+    UdpMay { src: (u32, u16), dst: (u32, u16), payload: Vec<u8>, why: &'static str },
     /// well-formed TCP segment
     Tcp(TcpSeg),
     /// well-formed ARP packet
@@ -275,34 +282,60 @@ fn reference_ip(b: &[u8]) -> Verdict {
         // one fragment alone never is a whole datagram
         return Verdict::Reject { layer: "ipv4", why: "ip-lone-fragment" };
     }
-    if tl != b.len() {
-        // RFC 1122: a datagram shorter than its total length is to be discarded, a longer frame
-        // carries padding.  The decoder under test is not told the frame length at all.
-        return Verdict::Lenient { why: if tl > b.len() { "ip-total-length-beyond-frame" } else { "ip-padding" } };
+    // The frame and the IPv4 total length disagree.  RFC 791: the datagram is `total length` octets
+    // long, whatever the link delivered behind it is padding; a frame SHORTER than the total length
+    // carries a datagram cut short in transit.  What the receiver owes is decided below from the
+    // transport octets that count (for TCP, which has no length field of its own, the frame stays
+    // in the tolerated class: no expectation beyond "no crash").
+    let frame_vs_tl: &'static str = if tl > b.len() {
+        "ip-total-length-beyond-frame"
+    } else if tl < b.len() {
+        "ip-padding"
+    } else {
+        ""
+    };
+    if !frame_vs_tl.is_empty() && b[9] != 17 {
+        return Verdict::Lenient { why: frame_vs_tl };
     }
     let src = u32::from_be_bytes([b[12], b[13], b[14], b[15]]);
     let dst = u32::from_be_bytes([b[16], b[17], b[18], b[19]]);
-    let rest = &b[20..];
+    // the transport octets that count: what arrived behind the IPv4 header, cut at the total length
+    // when the frame is longer (padding is not part of the datagram)
+    let rest = &b[20..tl.min(b.len())];
     match b[9] {
         17 => {
+            // RFC 768: Length = octets of this user datagram including header and data.  A length
+            // field that is not the number of UDP octets that arrived (after trimming link padding)
+            // describes a datagram that was cut short, or that claims octets beyond its IPv4
+            // datagram: either way it does not decode and must be dropped at the UDP layer.
             if rest.len() < 8 {
-                return Verdict::Reject { layer: "udp", why: "udp-short" };
+                // (fewer than 8 octets of the IPv4 payload are there although the frame goes on: the UDP
+                // header itself lies beyond the end of the datagram)
+                return Verdict::Reject { layer: "udp", why: if frame_vs_tl == "ip-padding" { "udp-short-of-ip-payload" } else { "udp-short" } };
             }
             let len = u16::from_be_bytes([rest[4], rest[5]]) as usize;
             if len < 8 {
                 return Verdict::Reject { layer: "udp", why: "udp-length-small" };
             }
             if len != rest.len() {
-                return Verdict::Reject { layer: "udp", why: "udp-length-mismatch" };
+                return Verdict::Reject {
+                    layer: "udp",
+                    why: match frame_vs_tl {
+                        "ip-total-length-beyond-frame" => "udp-length-vs-octets-arrived-cut",
+                        "ip-padding" => "udp-length-vs-ip-payload-padded",
+                        _ => "udp-length-mismatch",
+                    },
+                };
             }
             let ck = u16::from_be_bytes([rest[6], rest[7]]);
             if ck != 0 && !verifies(&[&pseudo(src, dst, 17, len), rest], ck) {
                 return Verdict::Lenient { why: "udp-checksum" };
             }
-            Verdict::Udp {
-                src: (src, u16::from_be_bytes([rest[0], rest[1]])),
-                dst: (dst, u16::from_be_bytes([rest[2], rest[3]])),
-                payload: rest[8..].to_vec(),
+            let (s, d, payload) = ((src, u16::from_be_bytes([rest[0], rest[1]])), (dst, u16::from_be_bytes([rest[2], rest[3]])), rest[8..].to_vec());
+            if frame_vs_tl.is_empty() {
+                Verdict::Udp { src: s, dst: d, payload }
+            } else {
+                Verdict::UdpMay { src: s, dst: d, payload, why: frame_vs_tl }
             }
         }
         6 => {
